@@ -5,7 +5,7 @@
 package sim
 
 // TapeCap bounds the number of recorded draws of one run.
-const TapeCap = 1 << 16
+const TapeCap = 1 << 18
 
 // Tape is the single source of choices of a run.  In search mode values come
 // from a PRNG seeded by the run seed and are recorded; in replay mode they are
